@@ -148,7 +148,8 @@ def rand_zone(r, idx):
     types += [base, alt]
     extra = r.random()
     if extra < 0.25:
-        types.append((base[0], False, b"NEW"))                 # abbreviation-only change target
+        # abbreviation-only change target: an unrelated name, or one that extends / is a prefix of the current one
+        types.append((base[0], False, r.choice([b"NEW", base[2] + b"X", base[2] + b"00", base[2][:max(1, len(base[2]) - 1)], b"NEW"])))
     elif extra < 0.5:
         types.append((base[0], True, base[2]))                  # isdst-only change target
     elif extra < 0.65:
